@@ -10,6 +10,8 @@ ROOT = os.path.dirname(os.path.dirname(os.path.abspath(__file__)))
 sys.path.insert(0, os.path.join(ROOT, 'harness'))
 
 NA_REASON = {}   # property id -> reason, for properties deliberately not claimed
+# checks the integrator has run green on the unchanged tree (seeds 0-2) and reviewed
+CLAIMED = ['C01', 'C07', 'C14']
 
 checks, na = [], []
 for i in range(1, 20):
@@ -19,7 +21,7 @@ for i in range(1, 20):
         m = getattr(mod, 'MANIFEST', None)
     except ModuleNotFoundError:
         m = None
-    if not m:
+    if not m or pid not in CLAIMED:
         na.append({'property_id': pid, 'reason': NA_REASON.get(
             pid, 'not claimed yet: its Lean model, theorems and correspondence check are still under construction '
                  '(DESIGN.md section 3 describes the planned check)')})
